@@ -206,6 +206,7 @@ type fnExec struct {
 	paramEnv map[string]Val
 	callCount map[string]int
 	loopEntry map[*Loop]*State
+	loopFrames map[*Loop]*loopFrame
 }
 
 func shortPkg(fn *ssa.Function) string {
@@ -358,6 +359,9 @@ func (fx *fnExec) addEdge(from, to *ssa.BasicBlock, st *State, cond *Term) {
 		s2 := st.clone()
 		s2.Reach = cond
 		fx.checkInvariant(lp, s2, "preserve")
+		if lf := fx.loopFrames[lp]; lf != nil {
+			fx.checkLoopFrame(lp, lf, s2)
+		}
 		return
 	}
 	// phi nodes: evaluate at edge
@@ -415,6 +419,10 @@ func (fx *fnExec) cutLoop(lp *Loop, spec *LoopSpec) {
 	}
 	fx.loopEntry[lp] = st.clone()
 	fx.checkInvariant(lp, st, "entry")
+	if fx.loopFrames == nil {
+		fx.loopFrames = map[*Loop]*loopFrame{}
+	}
+	fx.loopFrames[lp] = fx.declareLoopFrame(lp, spec, st)
 	// havoc
 	fx.havocLoop(lp, st, spec)
 	// assume invariant
@@ -535,7 +543,19 @@ func (fx *fnExec) havocLoop(lp *Loop, st *State, spec *LoopSpec) {
 		}
 		srt := heapSorts[k]
 		if srt == nil {
-			continue // key never materialised: nothing known about it anyway
+			// first touched inside the loop: materialise it now so that the head state is havocked too
+			srt = keySortHint[k]
+			if srt == nil {
+				if k == allocKey {
+					srt = allocSort
+				} else {
+					fail("%s: loop %d modifies heap key %s of unknown sort", fx.fn, lp.Ordinal, k)
+				}
+			}
+			initialHeap(k, srt)
+		}
+		if lf := fx.loopFrames[lp]; lf != nil && fx.havocTargets(lp, lf, k, st) {
+			continue // declared loop frame: only the named rows/cells are havocked
 		}
 		old := st.heapGet(k, srt)
 		nw := Fresh(fmt.Sprintf("L%d_%s", lp.Ordinal, k), srt)
@@ -558,23 +578,30 @@ func (fx *fnExec) keysOfObject(t types.Type, keys map[string]bool) {
 			} else if at, ok := ft.Underlying().(*types.Array); ok {
 				fx.keysOfElem(at.Elem(), keys)
 			} else {
-				for k := range layout(ft) {
+				for k, srt := range layout(ft) {
 					keys[fldKey(structName(t), i, k)] = true
+					keySortHint[fldKey(structName(t), i, k)] = ArraySort(IntSort, srt)
 				}
 			}
 		}
 	case *types.Array:
 		fx.keysOfElem(u.Elem(), keys)
 	default:
-		for k := range layout(t) {
+		for k, srt := range layout(t) {
 			keys[cellKey(t, k)] = true
+			keySortHint[cellKey(t, k)] = ArraySort(IntSort, srt)
 		}
 	}
 }
 
+// keySortHint remembers the sort of heap keys named by mod-set computations, so that keys that are
+// first touched inside a loop can still be havocked at the loop head.
+var keySortHint = map[string]*Sort{}
+
 func (fx *fnExec) keysOfElem(t types.Type, keys map[string]bool) {
-	for k := range layout(t) {
+	for k, srt := range layout(t) {
 		keys[elemKey(t, k)] = true
+		keySortHint[elemKey(t, k)] = ArraySort(IntSort, ArraySort(BV64, srt))
 	}
 }
 
@@ -619,8 +646,9 @@ func (fx *fnExec) modTargets(addr ssa.Value, allocs map[*ssa.Alloc]bool, keys ma
 		} else if at, ok := ft.Underlying().(*types.Array); ok {
 			fx.keysOfElem(at.Elem(), keys)
 		} else {
-			for k := range layout(ft) {
+			for k, srt := range layout(ft) {
 				keys[fldKey(structName(pt), a.Field, k)] = true
+				keySortHint[fldKey(structName(pt), a.Field, k)] = ArraySort(IntSort, srt)
 			}
 		}
 		// the struct may itself be an element of a slice
@@ -638,8 +666,9 @@ func (fx *fnExec) modTargets(addr ssa.Value, allocs map[*ssa.Alloc]bool, keys ma
 			fx.keysOfElem(at.Elem(), keys)
 		}
 	case *ssa.Global:
-		for k := range layout(a.Type().(*types.Pointer).Elem()) {
+		for k, srt := range layout(a.Type().(*types.Pointer).Elem()) {
 			keys[globKey(a, k)] = true
+			keySortHint[globKey(a, k)] = srt
 		}
 	default:
 		// store through a pointer value (parameter, loaded pointer)
